@@ -193,6 +193,37 @@ class Facts:
     def find(self, pred):
         return [b for b in self.bodies.values() if pred(b)]
 
+    def deep_view(self, body, callee_pred, max_depth=3):
+        """a copy of `body` in which the calls to local functions selected by callee_pred(callee Body) are inlined (then
+        expanded / threaded like every body). For rules about a computation that may sit on either side of a call
+        boundary (the eventfd counter decoded in the closure or in the function that reads it)."""
+        import copy as _copy
+        import inline, desugar, thread
+
+        raw = _copy.deepcopy(body.raw)
+        by_key = {b["key"]: b for b in self.raw["bodies"]}
+        for _ in range(max_depth):
+            changed = False
+            for i in range(len(raw["blocks"])):
+                t = raw["blocks"][i]["term"]
+                if t["t"] != "call" or "f" not in t or raw["blocks"][i].get("cleanup"):
+                    continue
+                fz = t["f"]
+                r = fz.get("resolved")
+                key = r["key"] if isinstance(r, dict) and r.get("local") else (fz["key"] if fz.get("local") and not fz.get("trait") else None)
+                cb = self.bodies.get(key) if key else None
+                if cb is None or key == raw["key"] or not callee_pred(cb):
+                    continue
+                if inline.inline_call(raw, _copy.deepcopy(cb.raw), i):
+                    changed = True
+            if not changed:
+                break
+        desugar.apply([raw] + [b for b in self.raw["bodies"] if b["key"] != raw["key"]], self.raw["types"], rounds=2) if False else None
+        thread.thread_body(raw)
+        nb = Body(self, raw)
+        nb.qual = body.qual
+        return nb
+
     def dropped_helper_bodies(self):
         """Body objects of the new private helpers that were inlined into their callers (and are therefore not in
         self.bodies): needed where a rule looks a function up by its role (signature), not by its name"""
